@@ -323,6 +323,10 @@ def _ladder(rng, x):
     return sorted(set(ratios) | extra)
 
 
+def pick_(seq, rng):
+    return seq[int(rng.integers(0, len(seq)))]
+
+
 def make_case(rng, big=False):
     cls = CLASSES[int(rng.choice(len(CLASSES), p=CWEIGHTS))]
     x = _layout_x(rng, cls, big)
@@ -334,6 +338,24 @@ def make_case(rng, big=False):
         pts = np.ascontiguousarray(np.column_stack((x, rng.integers(0, 10, n).astype(float))))
         return {'points': pts, 'class': 'epoch-ns-int64', 'layout': 'i64',
                 'ts': _thresholds(rng, x, 'int'), 'ladder': _ladder(rng, x)}
+    u = rng.random()
+    if u < 0.03:
+        # an evenly spaced grid of m+1 points with t equal to one gap ratio: every gap is an exact tie (fl(1/m) against
+        # fl(1/m)), every point opens a cluster - m clusters exactly, which no bound derived from 1/t may cut short
+        m = int(rng.integers(60, 140))
+        x = np.arange(m + 1, dtype=float) * float(pick_([1.0, 2.0, 3.0, 0.5], rng)) + float(rng.integers(0, 5))
+        ts = [_ratio(x, 1, 0), _ratio(x, 2, 0), _ratio(x, 1, 0) * 0.5, 2.0 ** -7, float(rng.uniform(0.5, 3.0)) / m, 1.5 * _ratio(x, 1, 0), 0.25]
+        pts = np.ascontiguousarray(np.column_stack((x, rng.integers(0, 10, m + 1).astype(float))))
+        return {'points': pts, 'class': 'even-grid', 'layout': gen.pick_layout(rng, pts), 'ts': ts, 'ladder': _ladder(rng, x)}
+    if u < 0.034:
+        # one cluster with thousands of members (periodic re-anchoring / blocked updates only show there)
+        n = int(rng.integers(2200, 3600))
+        x = np.concatenate(([0], np.cumsum(rng.integers(1, 3, n - 1) if rng.random() < 0.5 else np.ones(n - 1, dtype=int)))).astype(float)
+        L = float(x[-1] - x[0])
+        ts = [float(rng.uniform(0.15, 0.22)), float(rng.uniform(0.3, 0.45)), 550.8 / L, float(rng.uniform(400.0, 1300.0)) / L,
+              float(rng.uniform(1030.0, 1100.0)) / L, 0.5, 2.0 ** -3]
+        pts = np.ascontiguousarray(np.column_stack((x, rng.integers(0, 10, n).astype(float))))
+        return {'points': pts, 'class': 'huge-cluster', 'layout': 'C', 'ts': ts, 'ladder': _ladder(rng, x)[:6]}
     if rng.random() < 0.03:
         # many clusters: hundreds of points and thresholds at or below the smallest gap ratio, so labels run into the hundreds
         n = int(rng.integers(140, 700))
